@@ -3,6 +3,7 @@ package interp
 import (
 	"fmt"
 	"go/types"
+	"reflect"
 	"sort"
 	"strings"
 
@@ -155,6 +156,15 @@ func registerEnv(ip *Interp) {
 		return &Native{&rvalue{v: i.V, t: i.T}}
 	})
 	ip.allowFn["github.com/octohelm/x/reflect.Indirect"] = true
+	// reflect.Kind is a plain enumeration; String is exact for concrete kinds.
+	ip.reg("(reflect.Kind).String", func(ip *Interp, fr *frame, a []Value) Value {
+		k := ip.concretize(a[0].(*sym.Term))
+		return mkStr(ip.ctx, reflect.Kind(k).String())
+	})
+	// GODEBUG settings: unset (the defaults of the toolchain apply, as in the native replay).
+	ip.regStub("(*internal/godebug.Setting).Value", func(ip *Interp, fr *frame, a []Value) Value {
+		return mkStr(ip.ctx, "")
+	})
 	ip.reg("(reflect.Value).Kind", func(ip *Interp, fr *frame, a []Value) Value {
 		rv := a[0].(*Native).V.(*rvalue)
 		k := uint64(0) // Invalid
